@@ -240,7 +240,7 @@ CaseOutcome prop_execute(const std::string & case_json) {
             struct jls_signal_def_s g2 = {};
             if (jls_rd_signal(rd.rd, (uint16_t) want_ids[k], &g2) || g2.signal_id != g.signal_id || g2.samples_per_data != g.samples_per_data) { oc.fail("signals", strf("jls_rd_signal(%d) disagrees with jls_rd_signals", want_ids[k])); break; }
             uint32_t want_rate = d.stype == 1 ? 0 : d.rate;
-            if (g.source_id != d.src || g.signal_type != d.stype || g.data_type != s.dt->code || g.sample_rate != want_rate) {
+            if (g.source_id != d.src || g.signal_type != d.stype || g.data_type != (s.dt->code | ((uint32_t) (d.q & 0xff) << 16)) || g.sample_rate != want_rate) {
                 oc.fail("signal_fields", strf("signal %d: source %u type %u data_type 0x%x rate %u; written source %d type %d data_type 0x%x rate %u", want_ids[k], g.source_id, g.signal_type, g.data_type, g.sample_rate, d.src, d.stype, s.dt->code, want_rate));
                 break;
             }
